@@ -442,6 +442,8 @@ def model_keywords(env):
         p = l.split()
         if len(p) >= 3:
             kws.append((p[0], p[1:]))
+        elif len(p) == 2:
+            env.c10_single_keywords = getattr(env, "c10_single_keywords", []) + [p[1]]
     return kws
 
 
@@ -506,6 +508,71 @@ def keyword_sweep(env, keywords):
     return progs
 
 
+# one program with every token kind; written as a token list so that a comment can follow every token
+COMMENT_TOKS = ['make', 'a', 'get', '[', '1', ',', '2.5', ']', 'if to say', '(', 'a', '[', '0', ']', 'small pass', '2', 'and', 'not',
+                'false', ')', 'start', 'shout', '(', '"s{a}"', 'add', "'q\\t'", ')', 'end', 'if not so', 'start', 'shout', '(', 'a', '.',
+                'len', '(', ')', ')', 'end', 'do', 'f', '(', 'x', ')', 'start', 'return', 'x', 'end', 'jasi', '(', 'false', ')', 'start',
+                'comot', 'end', 'make', 'i', 'get', '0', 'jasi', '(', 'i', 'small pass', '1', ')', 'start', 'i', 'get', 'i', 'add', '1',
+                'next', 'end', 'shout', '(', 'f', '(', 'null', ')', ')', 'shout', '(', 'minus', '7', 'times', '3', 'divide', '2', 'mod', '2',
+                'minus', '1', ')', 'shout', '(', '1', 'pass', '2', 'or', 'true', 'na', 'true', ')', 'total', 'get', '40', 'shout', '(',
+                'total', ')']
+COMMENT_TOKS = ['make', 'total', 'get', '0'] + COMMENT_TOKS
+PUNCT = [chr(c) for c in range(33, 127) if not chr(c).isalnum()]
+COMMENT_FRAGMENTS = PUNCT + ["]#", "#[", "[1]", "[1] the bonus is applied below", "[note]", "[x, y]", "[[", "]]", "#!", "##", "{x}", "{{", "}}",
+                             '"open', "'open", '"closed"', "\\n", '\\"', "\\\\", "start", "end", "0", "9", "1.", "2.5", "0x1f", "\x00", "\x7f",
+                             "é", "日本", "🌍", "\t", "\x0c", "*/", "/*", "//", "--", "<!--", "(", "((", "))"]
+
+
+def comment_sweep(env, keywords):
+    """Comment CONTENT: a `#` comment is layout whatever it contains.  Every fragment (each ASCII punctuation
+    character, bracket / quote / brace / backslash shapes, token-like text, digits, NUL, multi-byte characters,
+    every keyword of the regenerated tables) at the start, inside, at the end of and as the whole comment text,
+    glued to the token or after a blank, the same comment after EVERY token of a program with all token kinds;
+    comment lengths 0..200; the last comment ended by LF, CR, CRLF or the end of the input.  The harness
+    compares each such source with its comment-free single-line re-layout (oracle) and the identity
+    re-layout ties the lexer model's comment rule to the implementation on the commented text itself."""
+    rng = env.rng
+    quick = env.tier == "quick"
+    frags = list(COMMENT_FRAGMENTS) + [" ".join(w) for _, w in keywords] + list(getattr(env, "c10_single_keywords", []))
+    progs = []
+
+    def program(body_of, glue, nl, last):
+        parts = []
+        for i, t in enumerate(COMMENT_TOKS):
+            end = last if i == len(COMMENT_TOKS) - 1 else nl
+            parts.append(t + glue + "#" + body_of(i) + end)
+        return "".join(parts)
+
+    nls = ["\n", "\r", "\r\n"]
+    lasts = ["\n", "", "\r", "\r\n"]
+    n = 0
+    for fi, f in enumerate(frags):
+        modes = [("start", f + " the bonus is applied below"), ("inside", " see " + f + " below"), ("end", " note" + f), ("whole", f),
+                 ("start-blank", " " + f + " x")]
+        for mi, (mode, body) in enumerate(modes):
+            glue = ["", " "][(fi + mi) % 2]
+            nl = nls[(fi + mi) % 3]
+            last = lasts[(fi * 5 + mi) % 4]
+            progs.append(("kw/comment/%s/%d" % (mode, fi), program(lambda i: body, glue, nl, last), 2))
+            n += 1
+            if not quick:
+                progs.append(("kw/comment/%s/%d/b" % (mode, fi), program(lambda i: body, ["", " "][(fi + mi + 1) % 2], rng.choice(nls), rng.choice(lasts)), 2))
+    # a different fragment after every token
+    for rnd in range(20 if quick else 200):
+        pick = [rng.choice(frags) for _ in COMMENT_TOKS]
+        progs.append(("kw/comment/varied/%d" % rnd, program(lambda i: pick[i] + rng.choice(["", " x", " the rest"]), rng.choice(["", " "]),
+                                                           rng.choice(nls), rng.choice(lasts)), 2))
+    # lengths 0..200 (filler with a fragment at both ends), one comment line between two statements and at the end
+    for L in range(0, 201):
+        f = frags[L % len(frags)]
+        body = (f + "x" * L)[:max(L - len(f), 0)] + (f if L >= len(f) else "")
+        body = body if L else ""
+        text = ("make total get 40\nshout(total)\n#" + body + rng.choice(nls) + "total get total add 2\nshout(total)"
+                + rng.choice(["", " ", "\n"]) + "#" + body + rng.choice(lasts))
+        progs.append(("kw/comment/len/%d" % L, text, 2))
+    return progs
+
+
 def gen_inputs(env):
     rng = env.rng
     quick = env.tier == "quick"
@@ -525,6 +592,7 @@ def gen_inputs(env):
     kws = model_keywords(env) or source_keywords()
     env.c10_keywords = kws
     progs += keyword_sweep(env, kws)
+    progs += comment_sweep(env, kws)
     return progs
 
 
